@@ -5,8 +5,15 @@
 cd "$(dirname "$0")/.."
 repo=${VERIF_REPO:?set VERIF_REPO to a scratch checkout}
 [ "$repo" = "/repo" ] && { echo "refusing to patch /repo"; exit 2; }
+n=0
 for d in seeded/S*; do
   id=$(basename $d | cut -d- -f1)
+  n=$((n+1))
+  # RESEED_SHARD=i/k: only every k-th seed, starting with the i-th
+  if [ -n "$RESEED_SHARD" ]; then
+    i=${RESEED_SHARD%/*}; k=${RESEED_SHARD#*/}
+    [ $((n % k)) -eq $i ] || continue
+  fi
   if [ $# -gt 0 ]; then case " $* " in *" $id "*) ;; *) continue;; esac; fi
   prop=$(python3 -c "import json;print(json.load(open('$d/meta.json'))['breaks_property'])")
   pf=$d/patch.diff; [ -f $d/patch-rebased.diff ] && pf=$d/patch-rebased.diff
